@@ -191,3 +191,35 @@ def origins(arm_body, seeds, extra_roots=(), skip=()):
                     org.setdefault(b, set()).update(src)
                     changed = True
     return org, of_expr
+
+
+def shape_conditional_only(body, name):
+    """the binding `name` (a sub-term of the matched node) is handed on only under a test of its own shape: every use of it outside
+    conditions lies in a branch of an `if` whose condition mentions it, and some such `if` has a way through (a missing or other branch)
+    that never mentions it.  Returns the offending If node or None.  `if let` / `matches!` / method tests all count as conditions."""
+    par = S.Parents(body)
+    uses = [n for n in S.walk(body) if n["k"] == "Path" and n["segs"] == [name]]
+    if not uses:
+        return None
+    guilty = None
+    for u in uses:
+        chain = [u] + list(par.ancestors(u))
+        in_cond = False
+        guarded = None
+        for child, anc in zip(chain, chain[1:]):
+            if anc["k"] != "If":
+                continue
+            role = par.role(child)
+            if role == "cond":
+                in_cond = True
+                break
+            if name in S.idents(anc["cond"]):
+                other = anc.get("else_") if role == "then" else anc.get("then")
+                if other is None or name not in S.idents(other):
+                    guarded = anc
+        if in_cond:
+            continue
+        if guarded is None:
+            return None        # an unconditional use exists
+        guilty = guarded
+    return guilty
